@@ -11,6 +11,7 @@ import (
 )
 
 type havocSet struct {
+	deletes map[string]bool // MapDom components from which the loop may delete keys
 	locals map[*ssa.Alloc]bool
 	comps  map[string]Sort
 	all    bool
@@ -165,7 +166,7 @@ func (run *FuncRun) enterLoopHeader(st *State, b *ssa.BasicBlock, ord int) bool 
 				kS := run.eng.reg.SortOf(it.KeyT)
 				nit.Visited = st.Fresh("visited", ArrSort(kS, SBool))
 				mc := run.mapComps(types.NewMap(it.KeyT, it.ElemT))
-				if _, mod := hs.comps[mc.Dom]; mod || hs.all {
+				if hs.deletes[mc.Dom] || hs.all {
 					nit.Deleted = st.Fresh("deleted", ArrSort(kS, SBool))
 				}
 				fr.iters[b.Index] = &nit
@@ -226,7 +227,7 @@ func (run *FuncRun) loopEnv(st *State, b *ssa.BasicBlock, ord int) *CEnv {
 
 // computeHavoc determines what the natural loop with header b may modify.
 func (run *FuncRun) computeHavoc(st *State, fr *Frame, b *ssa.BasicBlock) *havocSet {
-	hs := &havocSet{locals: map[*ssa.Alloc]bool{}, comps: map[string]Sort{}}
+	hs := &havocSet{locals: map[*ssa.Alloc]bool{}, comps: map[string]Sort{}, deletes: map[string]bool{}}
 	li := run.loopsOf(fr.fn)
 	body := li.body[b.Index]
 	seen := map[*ssa.Function]bool{}
@@ -346,6 +347,9 @@ func (run *FuncRun) havocOfCall(st *State, fr *Frame, c *ssa.CallCommon, hs *hav
 		case "delete", "clear":
 			if mt, ok := under(c.Args[0].Type()).(*types.Map); ok {
 				run.addMapComps(hs, mt)
+				if hs.deletes != nil {
+					hs.deletes[run.mapComps(mt).Dom] = true
+				}
 			}
 		case "copy":
 			es := reg.SortOf(under(c.Args[0].Type()).(*types.Slice).Elem())
@@ -376,7 +380,7 @@ func (run *FuncRun) havocOfCall(st *State, fr *Frame, c *ssa.CallCommon, hs *hav
 				}
 			}
 		}
-		tmp := &havocSet{locals: map[*ssa.Alloc]bool{}, comps: hs.comps}
+		tmp := &havocSet{locals: map[*ssa.Alloc]bool{}, comps: hs.comps, deletes: hs.deletes}
 		for _, blk := range fn.Blocks {
 			run.havocOfBlock(st, sub, blk, tmp, seen, depth+1)
 		}
@@ -484,6 +488,9 @@ func (run *FuncRun) havocOfContract(st *State, fc *FuncContract, c *ssa.CallComm
 	}
 	for name, so := range comps {
 		hs.comps[name] = so
+		if strings.HasPrefix(name, "MapDom:") && hs.deletes != nil {
+			hs.deletes[name] = true // a callee that may write the map may also delete from it
+		}
 	}
 	hs.allocs = true
 }
